@@ -14,11 +14,11 @@ abbrev MThread := Gau.Thread Reading Unit
 abbrev MCfg := Gau.Cfg Reading Unit
 
 /-- `Model.RecordReading(v)` as written in /repo -/
-def recordCall (v : String) : MCall := ⟨false, fun _ => none, fun o t => recordReading o v t, true⟩
+def recordCall (v : String) : MCall := ⟨false, fun _ => none, fun o t => recordReading o v t, true, false⟩
 /-- `Model.Reset()` as written in /repo -/
-def resetCall : MCall := ⟨true, fun _ => none, fun o t => reset o t, true⟩
+def resetCall : MCall := ⟨true, fun _ => none, fun o t => reset o t, true, false⟩
 /-- NOT in /repo: a `RecordReading` that takes its timestamp before `Set` ("same shape as Reset") -/
-def earlyRecordCall (v : String) : MCall := ⟨true, fun _ => none, fun o t => recordReading o v t, true⟩
+def earlyRecordCall (v : String) : MCall := ⟨true, fun _ => none, fun o t => recordReading o v t, true, false⟩
 
 /-- a program of the real model's calls: `some v` = `RecordReading(v)`, `none` = `Reset()` -/
 def codeCalls (prog : List (Option String)) : List MCall :=
